@@ -137,7 +137,49 @@ class _Opaque:
         return '<opaque>'
 
 
+class _ItemsOnly:
+    """quacks a little: items() and nothing else of a mapping"""
+
+    def items(self):
+        return [('password', 'x')]
+
+    def __repr__(self):
+        return '<items-only>'
+
+
+class _ItemsAndKeys(_ItemsOnly):
+    def keys(self):
+        return ['password']
+
+    def __iter__(self):
+        return iter(['password'])
+
+    def __repr__(self):
+        return '<items-and-keys>'
+
+
+def _email_message():
+    import email.message
+    m = email.message.Message()
+    m['password'] = 'x'
+    return m
+
+
+def _namedtuple():
+    import collections
+    return collections.namedtuple('Creds', 'password')('x')
+
+
 NON_MAPPINGS = {
+    'items-only': lambda: _ItemsOnly(),
+    'items-and-keys': lambda: _ItemsAndKeys(),
+    'email-message': _email_message,
+    'namedtuple': _namedtuple,
+    'pairs-generator': lambda: (p for p in [('password', 'x')]),
+    'dict_keys': lambda: {'password': 'x'}.keys(),
+    'dict_values': lambda: {'password': 'x'}.values(),
+    'frozenset': lambda: frozenset(['password']),
+    'bytearray': lambda: bytearray(b'password'),
     'list': lambda: [('password', 'x')],
     'list-of-dict': lambda: [{'password': 'x'}],
     'str': lambda: "{'password': 'x'}",
@@ -563,7 +605,8 @@ def _strategies():
     deep4 = mapping_of(st.one_of(scalar, lvl4, lvl4), 3, 1)
     deep3 = mapping_of(st.one_of(scalar, deep4, deep4), 3, 1)
     deep = mapping_of(st.one_of(scalar, deep3, deep3, deep4), 4, 1)
-    secret = st.sampled_from([None, None, '???', '', 'MASKED', '*'])
+    secret = st.sampled_from([None, None, '???', '', 'MASKED', '*',
+                              '\\g<0>', 'C:\\masked'])
 
     @st.composite
     def cases(draw):
